@@ -327,6 +327,10 @@ FORMS += [
     F("method-parameter:sibling-method", "non-enclosing", lambda N, B: "class K0 { a0(%s) {} m0() { %s } }" % (N, B),
       lambda x, b: Seq(Decl("KClass", "K0"), Block(Seq(PropKey("a0", Fun(Bind("KParam", x, Skip))), PropKey("m0", Fun(b))))), group="sibling-scope"),
     F("setter-parameter:sibling", "non-enclosing", lambda N, B: "({ set s0(%s) {} }); %s" % (N, B), lambda x, b: Seq(PropKey("s0", Fun(Bind("KSetterParam", x, Skip))), b), group="sibling-scope"),
+    F("import-in-ambient-module-block:default", "non-enclosing", lambda N, B: "declare module 'x0' { import %s from 'm0'; export const q0: number; } %s" % (N, B),
+      lambda x, b: Seq(Block(Decl("KImport", x)), b), media="ts", module=True, group="sibling-scope"),
+    F("import-in-ambient-module-block:namespace", "non-enclosing", lambda N, B: "declare module 'x0' { import * as %s from 'm0'; } %s" % (N, B),
+      lambda x, b: Seq(Block(Decl("KImport", x)), b), media="ts", module=True, group="sibling-scope"),
     F("ts-enum:sibling-block", "non-enclosing", lambda N, B: "{ enum %s { A0 } } %s" % (N, B), lambda x, b: Seq(Block(Decl("KTsEnum", x)), b), media="ts", group="sibling-scope"),
     # property keys, member names, labels
     F("property-key:object-literal", "non-enclosing", lambda N, B: "v9 = { %s: 1 }; %s" % (N, B), lambda x, b: Seq(PropKey(x, Skip), b), group="property-key"),
